@@ -79,6 +79,9 @@ func validateIssueTokenBaseFee(i interface{}) error {
 	if v.IsNegative() {
 		return fmt.Errorf("base fee for issuing token should not be negative")
 	}
+	if err := sdk.ValidateDenom(v.Denom); err != nil {
+		return fmt.Errorf("base fee for issuing token: %w", err)
+	}
 	return nil
 }
 
